@@ -618,12 +618,12 @@ def p_cons(rng, c, which=None, infield=False):
         c["bounds"]["props"].append(["bprop", {"s": "b"}])
         return which
     if which == "geometry":
-        if not bounded:
+        if c["cls"] != "aux":
             return None
         c["geom"] = "polygon" if c["geom"] != "polygon" else "line"
         return which
     if which == "iring":
-        if not bounded:
+        if c["cls"] != "aux":
             return None
         if c["iring"] is None:
             ir = gen_pd(rng, list(c["pd"]["data"]["arr"]["shape"]) + [1], None, allow_str=False)
@@ -1171,6 +1171,37 @@ def generate(chk):
         cases.append(mk_case("field-cref-directed", "field", x, y, o, pc, "top"))
         if rng.random() < 0.5:
             cases.append(mk_case("field-cref-directed", "field", y, x, o, pc, "top"))
+
+    # (c3) directed: two axes of equal size, told apart by their dimension coordinates; the axes
+    #      spanned by a 2-d construct or by the field's data are exchanged (data unchanged)
+    for _ in range(60 * scale):
+        n = rng.choice([2, 3])
+        x = {"isfield": True, "props": gen_props(rng, "air_temperature"), "data": None, "daxes": None,
+             "axes": [["domainaxis0", n], ["domainaxis1", n]], "cons": [], "cms": [], "crs": []}
+        x["cons"].append(["dimensioncoordinate0", ["domainaxis0"], gen_cons(rng, "dim", [n], "latitude", simple=True)])
+        x["cons"].append(["dimensioncoordinate1", ["domainaxis1"], gen_cons(rng, "dim", [n], "longitude", simple=True)])
+        for t in x["cons"]:
+            if t[2]["pd"]["data"]["arr"]["dt"] == "U":
+                t[2]["pd"]["data"]["arr"]["dt"] = "f8"
+        if rng.random() < 0.7:
+            x["cons"].append(["auxiliarycoordinate0", ["domainaxis0", "domainaxis1"],
+                              gen_cons(rng, "aux", [n, n], "aux_2d", simple=True)])
+        if rng.random() < 0.3:
+            x["axes"].append(["domainaxis2", rng.choice([1, 2])])
+        rng.shuffle(x["cons"])
+        x["daxes"] = ["domainaxis0", "domainaxis1"] + (["domainaxis2"] if len(x["axes"]) == 3 else [])
+        x["data"] = gen_data(rng, [dict(x["axes"])[a] for a in x["daxes"]], allow_str=False)
+        if rng.random() < 0.4:
+            x["cms"].append(["cellmethod0", gen_cm(rng, ["domainaxis0", "domainaxis1"])])
+        pr = p_field(rng, x, rng.choice(["data_axes_swap", "span_swap"]))
+        if pr is None:
+            continue
+        y, pc = pr
+        o = gen_opts(rng, loose_p=0.15)
+        if rng.random() < 0.4:
+            y = rename_keys(y, rng) if rng.random() < 0.5 else reorder(y, rng)
+        cases.append(mk_case("field-axes-directed", "field", x, y, o, pc, "top"))
+        cases.append(mk_case("field-axes-directed", "field", y, x, o, pc, "top"))
 
     # (d) malformed / unusual stream: axes without size, cell methods on axes nothing spans,
     #     too few intervals, other types, non-constructs
